@@ -8,10 +8,10 @@ from rules import common
 
 CLAIMED = True
 TECHNIQUE = "static analysis over type-checked MIR: guarded-table extraction of the formatter-name chain (name -> chunk variant, alias groups) cross-checked with the module documentation, per-variant accessor table of FormattedChunk::encode with placeholder constants, constant-folded profile gating in dev and release builds, escape table of the parser, forward-iteration of every chunk loop"
-LEVEL_TEXT = """Static decision of the table clauses only (the recursive parser as a whole — nesting, arguments, adjacency — and date formatting are NOT claimed): (T1) the formatter-name table extracted from From<Piece> for Chunk: {d,date}->Time {f,file}->File {h,highlight}->Highlight {D,debug}->Debug {R,release}->Release {l,level}->Level {L,line}->Line {m,message}->Message {M,module}->Module {P,pid}->ProcessId {i,tid}->SystemThreadId {n}->Newline {t,target}->Target {T,thread}->Thread {I,thread_id}->ThreadId {X,mdc}->Mdc {""}->Align, equal to the names listed in the module documentation; (T2) FormattedChunk::encode's accessor table: Level->record.level(), Message->record.args(), Module/File/Line->record.module_path()/file()/line() with "???" exactly on their None edges, Target->record.target(), Thread->thread::current().name() (unnamed), ThreadId->thread_id::get, ProcessId->process::id, SystemThreadId->the TID thread-local, Newline->NEWLINE, Mdc->log_mdc::get(key) with the default, Time->{Utc,Local}::now().format(fmt) per zone; (T3) the children loop of Debug is reachable and that of Release is not in a dev build after constant folding, and the reverse in a release build; (T4) the Highlight arm only sets styles and encodes its children; (T5) in the parser, doubled and backslash-escaped {, }, (, ) and \\\\ produce a text piece of exactly that character; (T7) the date format string is either the default "%+" or accumulated from every piece of the first argument, in order, with no early exit; (T6) every chunk loop iterates forward, encoding each child once, and PatternEncoder::new collects the parser's pieces in order."""
+LEVEL_TEXT = """Static decision of the table clauses only (the recursive parser as a whole — nesting, arguments, adjacency — and date formatting are NOT claimed): (T1) the formatter-name table extracted from From<Piece> for Chunk: {d,date}->Time {f,file}->File {h,highlight}->Highlight {D,debug}->Debug {R,release}->Release {l,level}->Level {L,line}->Line {m,message}->Message {M,module}->Module {P,pid}->ProcessId {i,tid}->SystemThreadId {n}->Newline {t,target}->Target {T,thread}->Thread {I,thread_id}->ThreadId {X,mdc}->Mdc {""}->Align, equal to the names listed in the module documentation; (T2) FormattedChunk::encode's accessor table: Level->record.level(), Message->record.args(), Module/File/Line->record.module_path()/file()/line() with "???" exactly on their None edges, Target->record.target(), Thread->thread::current().name() (unnamed), ThreadId->thread_id::get, ProcessId->process::id, SystemThreadId->the TID thread-local, Newline->NEWLINE, Mdc->log_mdc::get(key) with the default, Time->{Utc,Local}::now().format(fmt) per zone; (T3) the children loop of Debug is reachable and that of Release is not in a dev build after constant folding, and the reverse in a release build; (T4) the Highlight arm only sets styles and encodes its children; (T5) in the parser, doubled and backslash-escaped {, }, (, ) and \\\\ produce a text piece of exactly that character; (T7) the date format string is either the default "%+" or accumulated from every piece of the first argument, in order, with no early exit; (T8) in the parser no byte quantity (str::len, find offsets) steps the character cursor and no character count slices the pattern, so literal text containing multi-byte characters is delimited like ASCII text; (T6) every chunk loop iterates forward, encoding each child once, and PatternEncoder::new collects the parser's pieces in order."""
 LEVEL_NOTE = "Trusted: rustc MIR/callee resolution; log::Record accessors; chrono formatting; the parser's recursive structure beyond the escape table is not analysed for semantic equivalence with the documented grammar."
 EXPLANATION = """Decided: T1 name table (+doc cross-check), T2 accessor table and placeholders, T3 profile gating (dev + release configs), T4 highlight adds only style, T5 escape table, T6 forward order. Undecided: the recursive parser as a whole (nesting, argument handling, adjacency of pieces), date formatting results."""
-DECIDED = ["T1", "T2", "T3", "T4", "T5", "T6", "T7"]
+DECIDED = ["T1", "T2", "T3", "T4", "T5", "T6", "T7", "T8"]
 UNDECIDED = ["recursive parser semantics (nesting/arguments/adjacency)", "date formatting"]
 TRUSTED = ["rustc nightly MIR + Instance::try_resolve", "log::Record", "chrono formatting"]
 
@@ -203,6 +203,10 @@ def run_cfg(ctx, p, cfg, release):
         for c in f.calls():
             if (c.callee or "").startswith("std::io::Write::") and c.fn is f:
                 r.require(deep_strip(c.arg(0)) == ("param", 2), "writes-to-w:%s" % common.role(c), fn=f, site=c.at, detail="output goes to the writer argument")
+
+    with ctx.rule("T8", "literal text is scanned in one unit", cfg) as r:
+        fns = [f for pth, f in sorted(p.fns.items()) if pth.startswith("encode::pattern::parser::") or "encode::pattern::parser::Parser" in pth]
+        common.rule_units(r, p, fns, floor=4)
 
     with ctx.rule("T7", "date format is the whole argument", cfg) as r:
         f = p.fn(FROM_PIECE)
